@@ -297,7 +297,12 @@ func ISODateTimeWithOptions(options validate.ISODateTimeOptions, params ...any) 
 		OnAttach: []func(any){
 			func(schema any) {
 				SetBagProperty(schema, "format", "iso_datetime")
-				addPatternToSchema(schema, regex.DefaultDatetime.String())
+				// Export the pattern the validator matches for these options.
+				addPatternToSchema(schema, regex.Datetime(regex.DatetimeOptions{
+					Precision: options.Precision,
+					Offset:    options.Offset,
+					Local:     options.Local,
+				}).String())
 				SetBagProperty(schema, "type", "string")
 			},
 		},
@@ -378,7 +383,8 @@ func ISOTimeWithOptions(options validate.ISOTimeOptions, params ...any) core.Zod
 		OnAttach: []func(any){
 			func(schema any) {
 				SetBagProperty(schema, "format", "iso_time")
-				addPatternToSchema(schema, regex.DefaultTime.String())
+				// Export the pattern the validator matches for these options.
+				addPatternToSchema(schema, regex.Time(regex.TimeOptions{Precision: options.Precision}).String())
 				SetBagProperty(schema, "type", "string")
 			},
 		},
